@@ -7,6 +7,7 @@ Everything is stated for ONE kernel sweep / ONE injection in a form that compose
 
 * `marginal_sweep_in_S`      (Theorem A) sweep along an axis that belongs to S,
 * `marginal_sweep_outside_S` (Theorem B) sweep along an axis that does not belong to S,
+* `marginal_stepAxisFn_in_S`, `marginal_stepAxisFn_outside_S`: A and B restated for the kernel sweep `stepAxisFn`,
 * `marginal_invariant_sweep`, `marginal_invariant_step`, `marginal_invariant_integrate`,
   `marginal_invariant_integrateFn` (Theorem D) composition over axes, and over time steps,
 * injection (Theorem C) lives in `Lemmas/Marginal2.lean`.
@@ -465,11 +466,22 @@ theorem marginal_invariant_step (Inv : (List ℕ → ℚ) → (List ℕ → ℚ)
     (fun i hi x y hxy => by simpa using hin i hi x y hxy)
     (fun a ha => hout a (List.mem_range.mp ha)) _ _ (hinj T U h)
 
-/-- constant-parameter driver: both systems take the same time steps (`stepDt` equal) -/
+/-- the time step actually taken is positive while `t < T`, provided the rule `stepDt` is `none` (= +∞) or positive -/
+theorem thisDt_pos (o : Option ℚ) (t T : ℚ) (ht : t < T) (ho : ∀ d, o = some d → 0 < d) : 0 < thisDt o (T - t) := by
+  cases o with
+  | none => simp only [thisDt]; linarith
+  | some d =>
+    have hd := ho d rfl
+    simp only [thisDt, ratMin]
+    split_ifs
+    · exact hd
+    · linarith
+
+/-- constant-parameter driver: both systems take the same time steps (`stepDt` equal, positive) -/
 theorem marginal_invariant_integrate {Xd Xs : Type} (Inv : Xd → Xs → Prop)
     (stepD : StepParams → ℚ → Xd → Xd) (stepS : StepParams → ℚ → Xs → Xs) (tf : ℚ) (PD PS : StepParams) (T : ℚ)
-    (hdt : stepDt tf PD = stepDt tf PS)
-    (hstep : ∀ dt x y, Inv x y → Inv (stepD PD dt x) (stepS PS dt y)) :
+    (hdt : stepDt tf PD = stepDt tf PS) (hpos : ∀ d, stepDt tf PS = some d → 0 < d)
+    (hstep : ∀ dt, 0 < dt → ∀ x y, Inv x y → Inv (stepD PD dt x) (stepS PS dt y)) :
     ∀ (fuel : ℕ) (t : ℚ) (x : Xd) (y : Xs), Inv x y →
       Inv (integrateConst stepD tf PD T fuel t x) (integrateConst stepS tf PS T fuel t y) := by
   intro fuel
@@ -480,29 +492,95 @@ theorem marginal_invariant_integrate {Xd Xs : Type} (Inv : Xd → Xs → Prop)
     simp only [integrateConst]
     by_cases ht : t < T
     · rw [if_pos ht, if_pos ht, hdt]
-      exact ih _ _ _ (hstep _ _ _ h)
+      exact ih _ _ _ (hstep _ (thisDt_pos _ t T ht hpos) _ _ h)
     · rw [if_neg ht, if_neg ht]; exact h
 
 /-- time-dependent driver -/
 theorem marginal_invariant_integrateFn {Xd Xs : Type} (Inv : Xd → Xs → Prop)
     (stepD : StepParams → ℚ → Xd → Xd) (stepS : StepParams → ℚ → Xs → Xs) (tf : ℚ) (PfD PfS : ℚ → StepParams) (T : ℚ)
-    (hdt : ∀ τ, stepDt tf (PfD τ) = stepDt tf (PfS τ))
-    (hstep : ∀ τ dt x y, Inv x y → Inv (stepD (PfD τ) dt x) (stepS (PfS τ) dt y)) :
-    ∀ (fuel : ℕ) (t : ℚ) (PcD PcS : StepParams) (x : Xd) (y : Xs), stepDt tf PcD = stepDt tf PcS → Inv x y →
+    (hdt : ∀ τ, stepDt tf (PfD τ) = stepDt tf (PfS τ)) (hpos : ∀ τ d, stepDt tf (PfS τ) = some d → 0 < d)
+    (hstep : ∀ τ dt, 0 < dt → ∀ x y, Inv x y → Inv (stepD (PfD τ) dt x) (stepS (PfS τ) dt y)) :
+    ∀ (fuel : ℕ) (t : ℚ) (PcD PcS : StepParams) (x : Xd) (y : Xs), stepDt tf PcD = stepDt tf PcS →
+      (∀ d, stepDt tf PcS = some d → 0 < d) → Inv x y →
       Inv (integrateFn stepD tf PfD T fuel t PcD x) (integrateFn stepS tf PfS T fuel t PcS y) := by
   intro fuel
   induction fuel with
-  | zero => intro t _ _ x y _ h; exact h
+  | zero => intro t _ _ x y _ _ h; exact h
   | succ n ih =>
-    intro t PcD PcS x y hc h
+    intro t PcD PcS x y hc hcp h
     simp only [integrateFn]
     by_cases ht : t < T
     · rw [if_pos ht, if_pos ht, hc]
-      exact ih _ _ _ _ _ (hdt _) (hstep _ _ _ _ h)
+      exact ih _ _ _ _ _ (hdt _) (hpos _) (hstep _ _ (thisDt_pos _ t T ht hcp) _ _ h)
     · rw [if_neg ht, if_neg ht]; exact h
 
+/-! ### 8. Theorems A and B for the kernel sweep `stepAxisFn` on functional densities -/
 
-/-! ### 8. non-vacuity: a concrete instance (3-point grid, d = 3, |S| = 2, sweep along an axis of S) -/
+/-- `stepAxisFn` on the line through the (axis-erased) multi-index `i` -/
+theorem stepAxisFn_insertIdx (grids : List (Array ℚ)) (a : ℕ) (P : AxisParams) (use : Bool) (eps : List ℕ → ℕ → ℚ)
+    (dt : ℚ) (T : List ℕ → ℚ) (i : List ℕ) (j : ℕ) (ha : a ≤ i.length) :
+    stepAxisFn grids a P use eps dt T (i.insertIdx a j)
+      = stepFam (fun i => axisLine (grids.getD a #[]) P (otherCoords grids a i) use (eps i) dt)
+          (fun i j' => T (i.insertIdx a j')) i j := by
+  have e : (i.insertIdx a j).getD a 0 = j := by
+    simp [List.getD_eq_getElem?_getD, List.getElem?_insertIdx_self, ha]
+  unfold stepAxisFn
+  simp only [List.eraseIdx_insertIdx_self, e]
+
+/-- **Theorem A for `stepAxisFn`**: `eD s k` / `eS s` are the multi-indices (swept axis erased) of the d-line `(s,k)` and of
+    the S-line `s`; the swept axis is `aD` in the d-system and `aS` in the S-system, with the same grid. -/
+theorem marginal_stepAxisFn_in_S {σ κ : Type} [Fintype κ] (W : κ → ℚ) (gridsD gridsS : List (Array ℚ)) (aD aS : ℕ)
+    (Pd Ps : AxisParams) (used uses : Bool) (epsD epsS : List ℕ → ℕ → ℚ) (dt : ℚ)
+    (eD : σ → κ → List ℕ) (eS : σ → List ℕ) (T U : List ℕ → ℚ)
+    (hgrid : gridsD.getD aD #[] = gridsS.getD aS #[])
+    (haD : ∀ s k, aD ≤ (eD s k).length) (haS : ∀ s, aS ≤ (eS s).length)
+    (hN : 3 ≤ (gridsS.getD aS #[]).size) (hx0 : (gridsS.getD aS #[]).getD 0 0 = 0)
+    (hx1 : (gridsS.getD aS #[]).getD ((gridsS.getD aS #[]).size - 1) 0 = 1)
+    (hgd : Pd.gamma = 0) (hmd : ∀ m ∈ Pd.ms, m = 0) (hgs : Ps.gamma = 0) (hms : ∀ m ∈ Ps.ms, m = 0)
+    (hnu : Pd.nu = Ps.nu) (hV : ∀ u, Pd.V u = Ps.V u)
+    (hZ : ∀ s k, (otherCoords gridsD aD (eD s k)).all (· == 0) = true → (otherCoords gridsS aS (eS s)).all (· == 0) = true)
+    (hO : ∀ s k, (otherCoords gridsD aD (eD s k)).all (· == 1) = true → (otherCoords gridsS aS (eS s)).all (· == 1) = true)
+    (hpd : ∀ s k, PivotsOk 1 0 ((axisLine (gridsD.getD aD #[]) Pd (otherCoords gridsD aD (eD s k)) used (epsD (eD s k)) dt).rows
+      (fun j => T ((eD s k).insertIdx aD j))))
+    (hps : ∀ s, PivotsOk 1 0 ((axisLine (gridsS.getD aS #[]) Ps (otherCoords gridsS aS (eS s)) uses (epsS (eS s)) dt).rows
+      (fun j => U ((eS s).insertIdx aS j))))
+    (hinv : MargAgree (gridsS.getD aS #[]).size (fun s => otherCoords gridsS aS (eS s))
+      (fun s j => ∑ k, W k * T ((eD s k).insertIdx aD j)) (fun s j => U ((eS s).insertIdx aS j))) :
+    MargAgree (gridsS.getD aS #[]).size (fun s => otherCoords gridsS aS (eS s))
+      (fun s j => ∑ k, W k * stepAxisFn gridsD aD Pd used epsD dt T ((eD s k).insertIdx aD j))
+      (fun s j => stepAxisFn gridsS aS Ps uses epsS dt U ((eS s).insertIdx aS j)) := by
+  rw [hgrid] at hpd
+  have h := marginal_sweep_in_S W (gridsS.getD aS #[]) Pd Ps (fun s => otherCoords gridsS aS (eS s))
+    (fun s k => otherCoords gridsD aD (eD s k)) used uses (fun s k => epsD (eD s k)) (fun s => epsS (eS s)) dt
+    (fun s k j => T ((eD s k).insertIdx aD j)) (fun s j => U ((eS s).insertIdx aS j))
+    hN hx0 hx1 hgd hmd hgs hms hnu hV hZ hO hpd hps hinv
+  intro s j hj hnc
+  have := h s j hj hnc
+  simp only [stepAxisFn_insertIdx _ _ _ _ _ _ _ _ _ (haD s _), stepAxisFn_insertIdx _ _ _ _ _ _ _ _ _ (haS s), hgrid]
+  exact this
+
+/-- **Theorem B for `stepAxisFn`**: sweep along axis `b ∉ S` with grid `gridsD[b]`; `eD t k` is the d-multi-index (axis `b`
+    erased) of the line above the S-index `t` with remaining complement index `k`. -/
+theorem marginal_stepAxisFn_outside_S {τ κ' : Type} [Fintype κ'] (W' : κ' → ℚ) (gridsD : List (Array ℚ)) (b : ℕ)
+    (hg : GridOk (gridsD.getD b #[])) (P : AxisParams) (ct : τ → List ℚ) (use : Bool) (eps : List ℕ → ℕ → ℚ)
+    (dt : ℚ) (hdt : dt ≠ 0) (eD : τ → κ' → List ℕ) (T : List ℕ → ℚ) (ψ : τ → ℚ)
+    (hb : ∀ t k, b ≤ (eD t k).length)
+    (hZ : ∀ t k, (otherCoords gridsD b (eD t k)).all (· == 0) = true → (ct t).all (· == 0) = true)
+    (hO : ∀ t k, (otherCoords gridsD b (eD t k)).all (· == 1) = true → (ct t).all (· == 1) = true)
+    (hp : ∀ t k, PivotsOk 1 0 ((axisLine (gridsD.getD b #[]) P (otherCoords gridsD b (eD t k)) use (eps (eD t k)) dt).rows
+      (fun j => T ((eD t k).insertIdx b j))))
+    (hinv : ∀ t, (ct t).all (· == 0) = false → (ct t).all (· == 1) = false →
+      ∑ k, W' k * ∑ j ∈ range (gridsD.getD b #[]).size, gridW (gridsD.getD b #[]) j * T ((eD t k).insertIdx b j) = ψ t) :
+    ∀ t, (ct t).all (· == 0) = false → (ct t).all (· == 1) = false →
+      ∑ k, W' k * ∑ j ∈ range (gridsD.getD b #[]).size, gridW (gridsD.getD b #[]) j *
+        stepAxisFn gridsD b P use eps dt T ((eD t k).insertIdx b j) = ψ t := by
+  intro t h0 h1
+  have h := marginal_sweep_outside_S_inv W' (gridsD.getD b #[]) hg P ct (fun t k => otherCoords gridsD b (eD t k)) use
+    (fun t k => eps (eD t k)) dt hdt (fun t k j => T ((eD t k).insertIdx b j)) ψ hZ hO hp hinv t h0 h1
+  simp only [stepAxisFn_insertIdx _ _ _ _ _ _ _ _ _ (hb t _)]
+  exact h
+
+/-! ### 9. non-vacuity: a concrete instance (3-point grid, d = 3, |S| = 2, sweep along an axis of S) -/
 namespace MarginalExample
 
 def P (ms : List ℚ) : AxisParams := { nu := 1, gamma := 0, h := 1/2, ms := ms, beta := none }
@@ -514,16 +592,19 @@ def ψ (s : Fin 3) (j : ℕ) : ℚ :=
   (∑ k, W k * φ s k j)
     + (if ([g s].all (· == 0) = true ∧ j = 0) ∨ ([g s].all (· == 1) = true ∧ j + 1 = 3) then 7 else 0)
 
-theorem pivots (ms : List ℚ) (hm : ∀ m ∈ ms, m = 0) (ys : List ℚ) (use : Bool) (eps : ℕ → ℚ) (f : ℕ → ℚ) :
-    PivotsOk 1 0 ((axisLine #[0, 1/2, 1] (P ms) ys use eps 1).rows f) := by
-  rw [axisLine_nomig _ _ _ _ _ _ rfl hm]
-  have hV : ∀ u, (P ms).V u = u * (1 - u) := by
-    intro u; simp [AxisParams.V, P, C.Vfunc]
-  have hnu : (P ms).nu = 1 := rfl
+/-- on the grid {0, 1/2, 1} with ν = 1, dt = 1, pure drift, no pivot vanishes — whatever the corner flags -/
+theorem pivots' (P : AxisParams) (hnu : P.nu = 1) (hg : P.gamma = 0) (hm : ∀ m ∈ P.ms, m = 0)
+    (hV : ∀ u, P.V u = u * (1 - u)) (ys : List ℚ) (use : Bool) (eps : ℕ → ℚ) (f : ℕ → ℚ) :
+    PivotsOk 1 0 ((axisLine #[0, 1/2, 1] P ys use eps 1).rows f) := by
+  rw [axisLine_nomig _ _ _ _ _ _ hg hm]
   change PivotsOk 1 0 ([0, 1, 2].map _)
   simp only [mkLine, List.map, PivotsOk, Line.a, Line.b, Line.c, Line.df,
     Line.dxL, Line.dxR, C.atemp, C.ctemp, C.bcFirst, C.bcLast, hV, hnu]
   cases ys.all (· == 0) <;> cases ys.all (· == 1) <;> norm_num [Array.getD]
+
+theorem pivots (ms : List ℚ) (hm : ∀ m ∈ ms, m = 0) (ys : List ℚ) (use : Bool) (eps : ℕ → ℚ) (f : ℕ → ℚ) :
+    PivotsOk 1 0 ((axisLine #[0, 1/2, 1] (P ms) ys use eps 1).rows f) :=
+  pivots' (P ms) rfl rfl hm (fun u => by simp [AxisParams.V, P, C.Vfunc]) ys use eps f
 
 theorem gridOk : GridOk #[0, 1/2, 1] := by
   refine ⟨by decide, ?_⟩
